@@ -46,7 +46,10 @@ def build_world():
     # an object that did NOT come straight out of a constructor: negate() with the negation pushed inwards (its child list is assigned
     # by negate(), not sorted by a constructor), over an atom and a compound whose id sorts after the atom's
     NG = pg.Any("a", pg.All("x", "y", variable="b"), variable="NGsrc").negate()
-    return {"M": M, "N": N, "G": G, "K1": K1, "K2": K2, "J1": J1, "J2": J2, "K3": K3, "NG": NG}
+    # a model with leaves fixed to non-zero constants by their bounds (reduce / assume have real work to do on it without any argument)
+    F = pg.All(pg.AtLeast(2, ["a", "b", puan.variable("k", (1, 1))], variable="FB"),
+               pg.AtLeast(4, ["x", "y", puan.variable("t", (3, 3))], variable="FC"), "z", variable="F")
+    return {"M": M, "N": N, "G": G, "K1": K1, "K2": K2, "J1": J1, "J2": J2, "K3": K3, "NG": NG, "F": F}
 
 
 INTERPS = {
@@ -154,6 +157,16 @@ def ops_menu():
             if fname != "reduce":
                 add(f"{X}.{fname}>assume[sub=1]", derived(X, first, then_assume))
     add("K3.assume[partial]>evaluate[rule=0]", lambda w: (lambda r: r.evaluate({"X": 0}) if isinstance(r, pg.AtLeast) else r)(w["K3"].assume({"a": 1})))
+    add("F.reduce", lambda w: w["F"].reduce())
+    add("F.assume[empty]", lambda w: w["F"].assume({}))
+    add("F.assume[partial]", lambda w: w["F"].assume({"a": 1}))
+    add("F.evaluate[total]", lambda w: w["F"].evaluate({"a": 1, "b": 0, "x": 0, "y": 1, "z": 1}))
+    add("F.evaluate_propositions[partial]", lambda w: w["F"].evaluate_propositions({"a": 1, "z": 1}))
+    add("F.to_text", lambda w: w["F"].to_text())
+    add("F.to_json", lambda w: json.dumps(w["F"].to_json()))
+    add("F.negate", lambda w: w["F"].negate())
+    add("F.flags", lambda w: (w["F"].is_tautology, w["F"].is_contradiction, w["F"].equation_bounds))
+    add("F.errors", lambda w: [str(e) for e in w["F"].errors()])
     add("NG.to_text", lambda w: w["NG"].to_text())
     add("NG.to_short", lambda w: w["NG"].to_short())
     add("NG.to_json", lambda w: json.dumps(w["NG"].to_json()))
